@@ -29,6 +29,12 @@ structure Classes where
   inter : Char → Bool
   ws : Char → Bool
 
+def bitClass (bm : Nat) (c : Char) : Bool := c.toNat < 128 && bm.testBit c.toNat
+
+/-- the class table as the harness sends it: four 128-bit bitmaps over ASCII; every other code
+point belongs to no class (probed by the harness) -/
+def Classes.ofTable (a b c d : Nat) : Classes := ⟨bitClass a, bitClass b, bitClass c, bitClass d⟩
+
 /-- `SAFE_CHAR` -/
 def Classes.safe (K : Classes) (c : Char) : Bool := K.idHead c || K.nonIdHead c || K.inter c
 
@@ -89,6 +95,21 @@ def blockCommentWins (K : Classes) (cs : List Char) : Option Nat :=
     | none => none
   | _ => none
 
+def startsWithGt : List Char → Bool
+  | '>' :: _ => true
+  | _ => false
+
+/-- `'->'` (earlier rule, two characters) at a `-` -/
+def isArrow (c : Char) (cs : List Char) : Bool := c = '-' && startsWithGt cs
+
+/-- a block comment that wins at `c :: cs`: characters to skip after `c` -/
+def commentAt (K : Classes) (c : Char) (cs : List Char) : Option Nat :=
+  if c = '/' then blockCommentWins K cs else none
+
+def startsWithAmp : List Char → Bool
+  | '&' :: _ => true
+  | _ => false
+
 /-- One lexer step at a non-empty input `c :: cs`. -/
 def scan (K : Classes) (c : Char) (cs : List Char) : Scan :=
   if K.ws c then .skip 0
@@ -102,21 +123,19 @@ def scan (K : Classes) (c : Char) (cs : List Char) : Scan :=
   else if c = '!' then .tok .bang 0
   else if c = '(' then .tok .lparen 0
   else if c = ')' then .tok .rparen 0
-  else if c = '&' then (match cs with | '&' :: _ => .tok .andand 1 | _ => .err)
+  else if c = '&' then (if startsWithAmp cs then .tok .andand 1 else .err)
   else if c = '"' ∨ c = '\'' then
     match quoteScan c false none 0 cs with
     | some n => .tok (.quote c (cs.take (n - 1))) n
     | none => .err
+  else if isArrow c cs then .tok .arrow 1
   else
-    match (if c = '-' then (match cs with | '>' :: _ => true | _ => false) else false) with
-    | true => .tok .arrow 1
-    | false =>
-      match (if c = '/' then blockCommentWins K cs else none) with
-      | some n => .skip n
-      | none =>
-        if K.idHead c then .tok (.id (c :: cs.takeWhile K.safe)) (cs.takeWhile K.safe).length
-        else if K.nonIdHead c then .tok (.nonId (c :: cs.takeWhile K.safe)) (cs.takeWhile K.safe).length
-        else .err
+    match commentAt K c cs with
+    | some n => .skip n
+    | none =>
+      if K.idHead c then .tok (.id (c :: cs.takeWhile K.safe)) (cs.takeWhile K.safe).length
+      else if K.nonIdHead c then .tok (.nonId (c :: cs.takeWhile K.safe)) (cs.takeWhile K.safe).length
+      else .err
 
 /-- The whole lexer: `none` = some token recognition error (the error listener fires, `Parse`
 rejects). -/
@@ -625,6 +644,13 @@ structure Classes.WF (K : Classes) : Prop where
   bang_hash_nonid : K.nonIdHead '!' = false ∧ K.nonIdHead '#' = false
   nl_ws : K.ws '\n' = true ∧ K.ws '\r' = true
 
+/-- the executable form of `Classes.WF` for a table (only ASCII can be in a class) -/
+def Classes.wfCheck (K : Classes) : Bool :=
+  (List.range 128).all (fun n => !(K.ws (Char.ofNat n)) || !(K.safe (Char.ofNat n))) &&
+  [',', '{', '}', ':', '[', ']', '(', ')', '&', '"', '\'', '>'].all (fun c => !(K.safe c) && !(K.ws c)) &&
+  ['!', '#', '-', '/', '*'].all (fun c => !(K.idHead c) && !(K.ws c)) &&
+  !(K.nonIdHead '!') && !(K.nonIdHead '#') && K.ws '\n' && K.ws '\r'
+
 /-- no unescaped closing quote inside, and the body does not end in a backslash -/
 def quoteBodyOK (q : Char) : (prevBackslash : Bool) → List Char → Bool
   | pb, [] => !pb
@@ -633,7 +659,7 @@ def quoteBodyOK (q : Char) : (prevBackslash : Bool) → List Char → Bool
 /-- a token the lexer reads back as itself -/
 def TokOK (K : Classes) : Tok → Prop
   | .id s => ∃ c r, s = c :: r ∧ K.idHead c = true ∧ r.all K.safe = true
-  | .nonId s => ∃ c r, s = c :: r ∧ K.nonIdHead c = true ∧ r.all K.safe = true ∧
+  | .nonId s => ∃ c r, s = c :: r ∧ K.nonIdHead c = true ∧ K.idHead c = false ∧ r.all K.safe = true ∧
       -- a word starting with `/*` must contain its `*/` strictly inside (else it is a comment)
       (c = '/' → ∀ r', r = '*' :: r' → ∃ e, blockEnd r' = some e ∧ e < r'.length)
   | .quote q s => (q = '"' ∨ q = '\'') ∧ quoteBodyOK q false s = true
@@ -735,24 +761,27 @@ def stripPrefixL : List (List Char) → List (List Char) → Option (List (List 
   | _ :: _, [] => none
   | b :: bs, t :: ts => if b = t then stripPrefixL bs ts else none
 
+/-- `Rel` treats a base of `.` as the empty path -/
+def relBase (b : List Char) : List Char := if b = ['.'] then [] else b
+
+/-- the components `Rel` walks through on the target side (a target of `.` is the one component `.`) -/
+def targComps (t : List Char) : List (List Char) := if t = ['.'] then [['.']] else cleanComps t
+
+/-- `!strings.HasPrefix(rel, "..")` on what is left of the target after the base -/
+def restOK : List (List Char) → Bool
+  | [] => true
+  | h :: _ => !(['.', '.'].isPrefixOf h)
+
 /-- `common.EnsureFileInSubDir(filePath, dir)` at decision level: `true` = accepted.  This is
 `filepath.Rel(dir, Dir(filePath))` succeeding with a result that does not start with `..`. -/
 def ensureInSubDir (file dir : List Char) : Bool :=
   if dir = [] then false
+  else if cleanPath (dirOf file) = cleanPath dir then true
+  else if isAbsPath (relBase (cleanPath dir)) != isAbsPath (cleanPath (dirOf file)) then false
   else
-    let b := cleanPath dir
-    let t := cleanPath (dirOf file)
-    if t = b then true
-    else
-      let b' := if b = ['.'] then [] else b
-      if isAbsPath b' != isAbsPath t then false
-      else
-        match stripPrefixL (cleanComps b') (if t = ['.'] then [['.']] else cleanComps t) with
-        | none => false
-        | some rest =>
-          match rest with
-          | [] => true
-          | h :: _ => !(['.', '.'].isPrefixOf h)
+    match stripPrefixL (cleanComps (relBase (cleanPath dir))) (targComps (cleanPath (dirOf file))) with
+    | none => false
+    | some rest => restOK rest
 
 /-! ### the abstract file system and `Merger` -/
 
@@ -796,26 +825,32 @@ def mergeInto (father child : SMap) : SMap :=
   child.foldl (fun m e => m.append e.1 e.2) father
 
 structure MState where
-  /-- `entryToSectionMap` keys, in visiting order; every element was opened and parsed -/
+  /-- `entryToSectionMap` keys, in visiting order: files opened, checked and parsed -/
   visited : List (List Char)
+  /-- every path handed to `os.Open` successfully (a superset of `visited`: a file may be opened
+  and then rejected for being a directory, too open, or unparsable) -/
+  opened : List (List Char)
   deriving Repr
 
-/-- the checks of `readEntry` before and after opening; on success the parsed sections -/
-def readEntry (K : Classes) (fs : FS) (entryDir : List Char) (st : MState) (entry : List Char) :
-    Except MErr (MState × SMap) :=
-  if st.visited.contains entry then .error .circular
-  else if !hasSuffixC entry ".dae".toList then .error .suffix
-  else if !ensureInSubDir entry entryDir then .error .scope
+/-- state after the call, and its result -/
+abbrev MRes (α : Type) := MState × Except MErr α
+
+/-- `readEntry`: the checks before `os.Open`, the open, the checks after it, the parse -/
+def readEntry (K : Classes) (fs : FS) (entryDir : List Char) (st : MState) (entry : List Char) : MRes SMap :=
+  if st.visited.contains entry then (st, .error .circular)
+  else if !hasSuffixC entry ".dae".toList then (st, .error .suffix)
+  else if !ensureInSubDir entry entryDir then (st, .error .scope)
   else
     match fs.stat entry with
-    | none => .error .open
+    | none => (st, .error .open)
     | some fi =>
-      if fi.isDir then .error .isDir
-      else if fi.perm % 32 ≠ 0 then .error .perm       -- Mode()&0037 > 0
+      let st1 : MState := { st with opened := st.opened ++ [entry] }
+      if fi.isDir then (st1, .error .isDir)
+      else if fi.perm % 32 ≠ 0 then (st1, .error .perm)       -- Mode()&0037 > 0
       else
         match parse K fi.content with
-        | none => .error .parse
-        | some ss => .ok (⟨st.visited ++ [entry]⟩, sectionsToMap ss)
+        | none => (st1, .error .parse)
+        | some ss => ({ st1 with visited := st1.visited ++ [entry] }, .ok (sectionsToMap ss))
 
 /-- the glob patterns of the `include` section -/
 def includePatterns (entryDir : List Char) : List AItem → Except MErr (List (List Char))
@@ -828,7 +863,7 @@ def includePatterns (entryDir : List Char) : List AItem → Except MErr (List (L
       | .error e => .error e
       | .ok ps => .ok ((if isAbsPath next then next else joinPath entryDir next) :: ps)
 
-/-- files of one glob result kept by `unsqueezeEntries` -/
+/-- files of one glob result kept by `unsqueezeEntries` (`os.Stat`, no open) -/
 def keepFiles (fs : FS) : List (List Char) → Except MErr (List (List Char))
   | [] => .ok []
   | f :: rest =>
@@ -856,40 +891,36 @@ def unsqueeze (fs : FS) : List (List Char) → Except MErr (List (List Char))
         | .ok b => .ok (a ++ b)
 
 mutual
-/-- `dfsMerge(entry, _)`: returns the visited set and the merged section map of `entry` (own
-sections first, then every included file's merged map, in listed order).  The Go code appends a
-child's map into the father's map at the end of the child's call; here the father does the same
-append when the child returns. -/
+/-- `dfsMerge(entry, _)`: the merged section map of `entry` (own sections first, then every
+included file's merged map, in listed order).  The Go code appends a child's map into the
+father's map at the end of the child's call; here the father does the same append when the child
+returns. -/
 def dfsMerge (K : Classes) (fs : FS) (entryDir : List Char) :
-    Nat → MState → List Char → Except MErr (MState × SMap)
-  | 0, _, _ => .error .fuel
+    Nat → MState → List Char → MRes SMap
+  | 0, st, _ => (st, .error .fuel)
   | n + 1, st, entry =>
     match readEntry K fs entryDir st entry with
-    | .error e => .error e
-    | .ok (st1, own) =>
+    | (st1, .error e) => (st1, .error e)
+    | (st1, .ok own) =>
       match includePatterns entryDir (own.get "include".toList) with
-      | .error e => .error e
+      | .error e => (st1, .error e)
       | .ok pats =>
         match unsqueeze fs pats with
-        | .error e => .error e
+        | .error e => (st1, .error e)
         | .ok children => dfsChildren K fs entryDir n st1 own children
 /-- the loop over `childEntries` -/
 def dfsChildren (K : Classes) (fs : FS) (entryDir : List Char) :
-    Nat → MState → SMap → List (List Char) → Except MErr (MState × SMap)
-  | _, st, acc, [] => .ok (st, acc)
+    Nat → MState → SMap → List (List Char) → MRes SMap
+  | _, st, acc, [] => (st, .ok acc)
   | n, st, acc, c :: cs =>
     match dfsMerge K fs entryDir n st c with
-    | .error e => .error e
-    | .ok (st', m) => dfsChildren K fs entryDir n st' (mergeInto acc m) cs
+    | (st', .error e) => (st', .error e)
+    | (st', .ok m) => dfsChildren K fs entryDir n st' (mergeInto acc m) cs
 end
 
-/-- `Merger.Merge()` with `entryDir = Dir(entry)`; result: merged map of the entry file and the
-list of files read. -/
-def merge (K : Classes) (fs : FS) (fuel : Nat) (entry : List Char) : Except MErr (SMap × List (List Char)) :=
-  match dfsMerge K fs (dirOf entry) fuel ⟨[]⟩ entry with
-  | .error e => .error e
-  | .ok (st, m) => .ok (m, st.visited)
-
+/-- `Merger.Merge()` with `entryDir = Dir(entry)` -/
+def merge (K : Classes) (fs : FS) (fuel : Nat) (entry : List Char) : MRes SMap :=
+  dfsMerge K fs (dirOf entry) fuel ⟨[], []⟩ entry
 
 /-! ## 4. `config.New`: the reflection-driven section / parameter parser over a probed schema -/
 
@@ -956,19 +987,21 @@ inductive Leaf where
   | count (n : Nat)
   deriving Repr
 
-/-- the typed configuration as a flat store: field path ↦ value; absent = Go zero value -/
-abbrev Store := List (List Char × Leaf)
+/-- a field path: section / field / element components, e.g. `dns`,`routing`,`request`,`fallback`
+or `group`,`[0]`,`policy` -/
+abbrev Path := List (List Char)
 
-def Store.get? (st : Store) (path : List Char) : Option Leaf :=
+/-- the typed configuration as a flat store: field path ↦ value; absent = Go zero value -/
+abbrev Store := List (Path × Leaf)
+
+def Store.get? (st : Store) (path : Path) : Option Leaf :=
   match st.find? (fun e => e.1 = path) with
   | some e => some e.2
   | none => none
 
-def Store.put (st : Store) (path : List Char) (v : Leaf) : Store :=
+def Store.put (st : Store) (path : Path) (v : Leaf) : Store :=
   if st.any (fun e => e.1 = path) then st.map (fun e => if e.1 = path then (path, v) else e)
   else st ++ [(path, v)]
-
-def Store.del (st : Store) (path : List Char) : Store := st.filter (fun e => e.1 ≠ path)
 
 inductive CErr where
   | requiredSection | unknownSection | patch
@@ -976,12 +1009,12 @@ inductive CErr where
   | unsupportedSection | defaultDecode | fuel | badSchema
   deriving DecidableEq, Repr
 
-def sub (path key : List Char) : List Char := if path.isEmpty then key else path ++ '.' :: key
+def sub (path : Path) (key : List Char) : Path := path ++ [key]
 
 def natStr (n : Nat) : List Char := (toString n).toList
 
 /-- "fill in default value before parsing section" -/
-def applyDefaults (dec : Dec) (path : List Char) : List Field → Store → Except CErr Store
+def applyDefaults (dec : Dec) (path : Path) : List Field → Store → Except CErr Store
   | [], st => .ok st
   | f :: fs, st =>
     match f.dflt with
@@ -998,18 +1031,18 @@ def applyDefaults (dec : Dec) (path : List Char) : List Field → Store → Exce
 
 def findField (fields : List Field) (key : List Char) : Option Field := fields.find? (fun f => f.key = key)
 
-def getStrs (st : Store) (p : List Char) : List (List Char) :=
+def getStrs (st : Store) (p : Path) : List (List Char) :=
   match st.get? p with
   | some (.strs vs) => vs
   | _ => []
 
-def getCount (st : Store) (p : List Char) : Nat :=
+def getCount (st : Store) (p : Path) : Nat :=
   match st.get? p with
   | some (.count n) => n
   | _ => 0
 
 /-- `StringListParser` -/
-def stringListParser (p : List Char) : List AItem → Store → Except CErr Store
+def stringListParser (p : Path) : List AItem → Store → Except CErr Store
   | [], st => .ok st
   | it :: rest, st =>
     match it.paramStr with
@@ -1022,7 +1055,7 @@ def checkRequired (fields : List Field) (set : List (List Char)) : Bool :=
 
 mutual
 /-- `ParamParser(to, section)` for the struct `sid` located at `path`. -/
-def paramParser (S : Schema) (dec : Dec) : Nat → Nat → List Char → List AItem → Store → Except CErr Store
+def paramParser (S : Schema) (dec : Dec) : Nat → Nat → Path → List AItem → Store → Except CErr Store
   | 0, _, _, _, _ => .error .fuel
   | n + 1, sid, path, items, st =>
     match S.structs[sid]? with
@@ -1035,7 +1068,7 @@ def paramParser (S : Schema) (dec : Dec) : Nat → Nat → List Char → List AI
         | .error e => .error e
         | .ok (st2, set) => if checkRequired sd.fields set then .ok st2 else .error .requiredParam
 /-- the loop over `section.Items`; `set` = keys with `field.Set` -/
-def paramItems (S : Schema) (dec : Dec) : Nat → StructDef → List Char → List AItem → Store →
+def paramItems (S : Schema) (dec : Dec) : Nat → StructDef → Path → List AItem → Store →
     List (List Char) → Except CErr (Store × List (List Char))
   | _, _, _, [], st, set => .ok (st, set)
   | n, sd, path, it :: rest, st, set =>
@@ -1087,7 +1120,7 @@ def paramItems (S : Schema) (dec : Dec) : Nat → StructDef → List Char → Li
         | _ => paramItems S dec n sd path rest (st.put p (.rules [(fs, out)])) set
       else .error .ruleCtx
 /-- `SectionParser(to, section)` by the kind of `to` -/
-def sectionParser (S : Schema) (dec : Dec) : Nat → FKind → List Char → List AItem → Store → Except CErr Store
+def sectionParser (S : Schema) (dec : Dec) : Nat → FKind → Path → List AItem → Store → Except CErr Store
   | 0, _, _, _, _ => .error .fuel
   | n + 1, kind, path, items, st =>
     match kind with
@@ -1096,13 +1129,13 @@ def sectionParser (S : Schema) (dec : Dec) : Nat → FKind → List Char → Lis
     | .structList sid => structListItems S dec n sid path items st
     | _ => .error .unsupportedSection
 /-- "to is a section list (sections in section)" -/
-def structListItems (S : Schema) (dec : Dec) : Nat → Nat → List Char → List AItem → Store → Except CErr Store
+def structListItems (S : Schema) (dec : Dec) : Nat → Nat → Path → List AItem → Store → Except CErr Store
   | _, _, _, [], st => .ok st
   | n, sid, path, it :: rest, st =>
     match it with
     | .sec name items =>
       let i := getCount st path
-      let ep := path ++ '[' :: (natStr i ++ [']'])
+      let ep := path ++ ['[' :: (natStr i ++ [']'])]
       match paramParser S dec n sid ep items (st.put (sub ep "#name".toList) (.scalar 0 name)) with
       | .error e => .error e
       | .ok st' => structListItems S dec n sid path rest (st'.put path (.count (i + 1)))
@@ -1127,40 +1160,59 @@ def mustPatchFn (f : Fn) : Fn :=
     ⟨f.name.drop 5, f.neg, f.params ++ [⟨[], "must".toList⟩]⟩
   else f
 
-/-- the four patches of `config/patch.go` -/
+def pBootstrap : Path := ["global".toList, "bootstrap_resolver".toList]
+def pHttpMethod : Path := ["global".toList, "tcp_check_http_method".toList]
+def pReqFallback : Path := ["dns".toList, "routing".toList, "request".toList, "fallback".toList]
+def pRespFallback : Path := ["dns".toList, "routing".toList, "response".toList, "fallback".toList]
+def pRules : Path := ["routing".toList, "#rules".toList]
+def pFallback : Path := ["routing".toList, "fallback".toList]
+
+def scalarAt (st : Store) (p : Path) : List Char :=
+  match st.get? p with
+  | some (.scalar _ v) => v
+  | _ => []
+
+/-- `patchTcpCheckHttpMethod` -/
+def patchHttp (dec : Dec) (st : Store) : Store :=
+  match dec kindHttpMethod (scalarAt st pHttpMethod) with
+  | some _ => st
+  | none => st.put pHttpMethod (.scalar 0 "CONNECT".toList)
+
+def putIfAbsent (st : Store) (p : Path) (v : Leaf) : Store :=
+  match st.get? p with
+  | none => st.put p v
+  | some _ => st
+
+/-- `patchEmptyDns` -/
+def patchEmptyDns (st : Store) : Store :=
+  putIfAbsent (putIfAbsent st pReqFallback (.istr "asis".toList)) pRespFallback (.istr "accept".toList)
+
+/-- `patchMustOutbound`, the rules -/
+def patchMustRules (st : Store) : Store :=
+  match st.get? pRules with
+  | some (.rules rs) => st.put pRules (.rules (rs.map fun r => (r.1, mustPatchFn r.2)))
+  | _ => st
+
+/-- `patchMustOutbound`, the fallback (`ParseFunctionOrString` may fail) -/
+def patchMustFallback (st : Store) : Except CErr Store :=
+  let fb : Except CErr Fn := match st.get? pFallback with
+    | some (.istr s) => .ok ⟨s, false, []⟩
+    | some (.ifns [f]) => .ok f
+    | some (.ifn f) => .ok f
+    | _ => .error .patch
+  match fb with
+  | .error e => .error e
+  | .ok f =>
+    if hasPrefixC f.name "must_".toList then
+      .ok (st.put pFallback (.ifn ⟨f.name.drop 5, f.neg, f.params ++ [⟨[], "must".toList⟩]⟩))
+    else .ok st
+
+/-- the four patches of `config/patch.go`, in order -/
 def applyPatches (dec : Dec) (st : Store) : Except CErr Store :=
   -- patchBootstrapResolver
-  let br := match st.get? "global.bootstrap_resolver".toList with | some (.scalar _ v) => v | _ => []
-  match dec kindAddrPort br with
+  match dec kindAddrPort (scalarAt st pBootstrap) with
   | none => .error .patch
-  | some _ =>
-    -- patchTcpCheckHttpMethod
-    let m := match st.get? "global.tcp_check_http_method".toList with | some (.scalar _ v) => v | _ => []
-    let st := match dec kindHttpMethod m with
-      | some _ => st
-      | none => st.put "global.tcp_check_http_method".toList (.scalar 0 "CONNECT".toList)
-    -- patchEmptyDns
-    let st := match st.get? "dns.routing.request.fallback".toList with
-      | none => st.put "dns.routing.request.fallback".toList (.istr "asis".toList)
-      | some _ => st
-    let st := match st.get? "dns.routing.response.fallback".toList with
-      | none => st.put "dns.routing.response.fallback".toList (.istr "accept".toList)
-      | some _ => st
-    -- patchMustOutbound
-    let st := match st.get? "routing.#rules".toList with
-      | some (.rules rs) => st.put "routing.#rules".toList (.rules (rs.map fun r => (r.1, mustPatchFn r.2)))
-      | _ => st
-    let fb : Except CErr Fn := match st.get? "routing.fallback".toList with
-      | some (.istr s) => .ok ⟨s, false, []⟩
-      | some (.ifns [f]) => .ok f
-      | some (.ifn f) => .ok f
-      | _ => .error .patch
-    match fb with
-    | .error e => .error e
-    | .ok f =>
-      if hasPrefixC f.name "must_".toList then
-        .ok (st.put "routing.fallback".toList (.ifn ⟨f.name.drop 5, f.neg, f.params ++ [⟨[], "must".toList⟩]⟩))
-      else .ok st
+  | some _ => patchMustFallback (patchMustRules (patchEmptyDns (patchHttp dec st)))
 
 /-- decode the present sections in the order of `configSectionSpecs` -/
 def decodeSpecs (S : Schema) (dec : Dec) (fuel : Nat) (ss : List ASection) : List SectionSpec → Store → Except (CErr × List Char) Store
@@ -1169,15 +1221,15 @@ def decodeSpecs (S : Schema) (dec : Dec) (fuel : Nat) (ss : List ASection) : Lis
     match lookupSection ss sp.name with
     | none =>
       -- 2aec039: an omitted optional section is decoded like an empty one (defaults apply)
-      match sectionParser S dec fuel sp.kind sp.name [] st with
+      match sectionParser S dec fuel sp.kind [sp.name] [] st with
       | .error e => .error (e, sp.name)
       | .ok st' => decodeSpecs S dec fuel ss rest st'
     | some sec =>
-      match sectionParser S dec fuel sp.kind sp.name sec.items st with
+      match sectionParser S dec fuel sp.kind [sp.name] sec.items st with
       | .error e => .error (e, sp.name)
       | .ok st' =>
         let st' := if sp.name = "global".toList then
-            st'.put "global.so_mark_from_dae_set".toList
+            st'.put ["global".toList, "so_mark_from_dae_set".toList]
               (.scalar 1 (if sectionHasParam sec.items "so_mark_from_dae".toList then "true".toList else "false".toList))
           else st'
         decodeSpecs S dec fuel ss rest st'
